@@ -30,6 +30,7 @@ type DocOpts struct {
 	Rects      bool // polygons in the exact rectangle form now and then
 	OutOfRange bool // occasionally out-of-range coordinates (RequireValid)
 	BigOften   bool // more often geometries with >= 64 positions / collections with >= 64 children
+	Overflow   bool // occasionally a number literal that overflows float64 (1e999) as an extra ordinate
 }
 
 // DefaultDocOpts is a rich default.
@@ -88,6 +89,10 @@ func NumText(r *rand.Rand, o *DocOpts, lat bool) string {
 func position(r *rand.Rand, o *DocOpts, dim int, allowNull bool) *V {
 	p := arr()
 	for i := 0; i < dim; i++ {
+		if o.Overflow && i >= 2 && r.Intn(6) == 0 {
+			p.El = append(p.El, num([]string{"1e999", "-1e999", "1E+400"}[r.Intn(3)]))
+			continue
+		}
 		if allowNull && o.Nulls && r.Intn(25) == 0 {
 			p.El = append(p.El, &V{Kind: 'z'})
 			continue
